@@ -44,6 +44,13 @@ def run(rep, tier):
     r3(prog, rep)
     r5(prog, rep)
     r6(prog, rep)
+    # the profile functions evaluate their splines at psi*f_psi_sign: the splines must be built
+    # on that same abscissa, with one sign convention for fpol, fpolprime and pressure
+    # (rule instances of C16.R2)
+    from ..report import Premise
+    from . import c16
+    rep.rule("R0", "premise: one psi sign/scale convention across the profile family (C16.R2)")
+    c16.r2(prog, Premise(rep, "R0", "C16"))
     rep.undecided("interpolation accuracy of psi, fpol and pressure splines")
     return __doc__
 
